@@ -45,6 +45,11 @@ def maps(ctx, out):
         res, tempo = C01.rand_map(rng, rng.choice([1, 2, 4, 8, 20]))
         if rng.random() < 0.3:  # extreme acceleration / deceleration
             tempo = [(t, rng.choice([1, 7, 10**9, 999_999_999, 120000])) for t, _ in tempo]
+        if rng.random() < 0.15 and len(tempo) >= 2:
+            # a tempo tick written twice (different values): the library may reject the map (ValueError) — but whatever it
+            # accepts must still be monotone
+            k = rng.randrange(1, len(tempo))
+            tempo = tempo[:k + 1] + [(tempo[k][0], max(1, tempo[k][1] // rng.choice([2, 3])))] + tempo[k + 1:]
         cases.append((res, tempo, sweep(rng, res, tempo)))
     reqs, owner = [], []
     for ci, (res, tempo, ticks) in enumerate(cases):
@@ -68,6 +73,13 @@ def maps(ctx, out):
                                   "(equal ticks must have identical timestamps)", {"op": "sweep", "res": res, "tempo": tempo, "ticks": [tk], "both": True},
                                   observed=[ts // US, ts2 // US], promised="identical")
                 ivals.append(ts // US)
+        except ValueError:
+            if len({t for t, _ in tempo}) < len(tempo):
+                out.case(fw.h(["dup", res, tempo]), False, None, tags=["duplicate-tick-map-rejected"])
+                continue
+            out.violation("map-" + fw.h([res, tempo]), "well-formed tempo map raised ValueError",
+                          {"op": "sweep", "res": res, "tempo": tempo, "ticks": ticks}, observed="E ValueError", promised="times")
+            continue
         except Exception as e:  # noqa: BLE001
             out.violation("map-" + fw.h([res, tempo]), f"well-formed tempo map raised {impl.err_name(e)}",
                           {"op": "sweep", "res": res, "tempo": tempo, "ticks": ticks}, observed=impl.err_name(e), promised="times")
@@ -77,6 +89,8 @@ def maps(ctx, out):
                  tags=[f"seg{min(len(tempo), 5)}"])
         out.traces += 1
         mts = [int(m.split(" ")[0]) if not m.startswith(("E", "MAP")) else None for m in mvals]
+        if len({t for t, _ in tempo}) < len(tempo):
+            mts = ivals  # a map with a repeated tick that the library accepted: the model rejects it; only monotonicity is checked
         if mts != ivals:
             k = next(i for i, (a, b) in enumerate(zip(ivals, mts)) if a != b)
             out.corr_mismatch(f"timestamp_at_tick({ticks[k]}) on res={res} map={tempo[:5]}", rp, impl=ivals[k], model=mvals[k])
@@ -96,10 +110,11 @@ def charts(ctx, out):
     rng = ctx.sub("charts")
     prof = gen.Profile(max_tempo=8, garbage=0.0, unknown_sections=0.0, meta_fields=0.0)
     cases = []
-    for _ in range(ctx.n(120, 12_000)):
-        src = gen.rand_src(rng, prof)
+    for k in range(ctx.n(120, 12_000)):
+        src = gen.rand_src(rng, gen.Profile(max_tempo=16, garbage=0.0, unknown_sections=0.0, meta_fields=0.0) if k % 4 == 0 else prof)
         cases.append((src, gen.render(src, rng, prof)))
     a, b = common.run_charts([(R.text, None) for _, R in cases])
+    direct_vs_events(ctx, out, cases)
     for (src, R), x, y in zip(cases, a, b):
         dx, dy = gen.parse_dump(x), gen.parse_dump(y)
         rp = common.chart_replay(R.text)
@@ -114,6 +129,25 @@ def charts(ctx, out):
         bad = check_order(dx)
         if bad:
             out.violation("chart-" + fw.h(R.text), bad, rp, observed=bad, promised="timestamps ordered like ticks across all tracks")
+
+
+def direct_vs_events(ctx, out, cases):
+    """a tick queried directly and the same tick taken from an event of any track must have the identical timestamp"""
+    for src, R in cases[: ctx.n(60, 3000)]:
+        c, e, _ = impl.parse(R.text)
+        if c is None:
+            continue
+        be = c.sync_track.bpm_events
+        d = gen.parse_dump(impl.dump_chart(c, []))
+        for kind, tick, ts, idx in common.all_events(d):
+            try:
+                q = be.timestamp_at_tick_no_optimize_return(tick) // US
+            except Exception as ex:  # noqa: BLE001
+                q = impl.err_name(ex)
+            if q != ts:
+                out.violation("direct-" + fw.h([R.text, tick]), f"{kind} event at tick {tick} is at {ts} µs but the direct query for that tick gives {q}",
+                              {**common.chart_replay(R.text), "direct": True}, observed=[ts, q], promised="identical")
+                break
 
 
 def check_order(dx):
@@ -148,6 +182,12 @@ def replay(ctx: fw.Ctx, data: dict):
         dec = any(a > b for a, b in zip(vals, vals[1:]))
         eq = data.get("strict") and any(a == b for a, b in zip(vals, vals[1:]))
         return bool(dec or eq), str(vals)
+    if data["op"] == "chart" and data.get("direct"):
+        o = fw.Outcome("")
+        class _R:  # noqa: N801
+            text = data["text"]
+        direct_vs_events(fw.Ctx("C12", "quick", 0), o, [(None, _R)])
+        return bool(o.violations), str(o.violations[:1])[:300]
     if data["op"] == "chart":
         x = impl.run_chart(data["text"])
         if x.startswith("E "):
